@@ -285,7 +285,8 @@ def cert_case(mod, kind):
 
 def run(ctx):
     out = common.Outcome()
-    out.proof = common.proof_status(FAMILY, PROPFILE)
+    import gen_book
+    out.proof = common.proof_status_many([(FAMILY, PROPFILE)] + gen_book.PROOFS)
     n = ctx.scale(45, 900)
     cases, metas, seen = [], [], set()
     stats = {'kinds': {}, 'extra_decimal_params': 0, 'iterative_runs': 0}
@@ -334,12 +335,19 @@ def run(ctx):
                         '"to within solver tolerance": the oracle compares floats with relative tolerance 2e-4']
     out.assumptions = ['PC is compared period by period from the model\'s own previous-period stocks for k>=2 (the bundled '
                        'initial conditions are partial); SIM/SIMEX1 are simulated independently from the initial stocks']
+    # the builders' own programs as Coq functions of the parameter texts (coq/GenBook): build(prog_*(texts)) = E_*(texts)
+    # and the book's recursions / closed forms follow from E_* for ALL texts, exogenous values and lagged stocks; here the
+    # real builders' FinalEquations are compared with E_* at the generated parameter texts
+    gen_book.extra(ctx, out)
     return out
 
 
 def replay(path):
     obj = json.load(open(path))
     r = obj.get('replay') or {}
+    if r.get('kind') == 'book_model':
+        import gen_book
+        return gen_book.replay(obj)
     if r.get('kind') == 'book':
         fails = oracle(r['params'])
     elif r.get('kind') == 'iterative':
